@@ -93,6 +93,7 @@ def main(prop, rule):
         obs, fails, _, _ = run_group(res, prop, r['group'], bb, None, [r['case']], 'replay', want_model=False)
         print('\n'.join(obs)); print('\n'.join(f['what'] for f in fails))
         return 1 if fails else 0
+    step_translate(res, ['arith_unord_map'] if prop == 'C12' else ['arith_unord_array', 'arith_unord_map'] if prop in ('C19', 'C20') else ['arith_unord_array'])
     step_proofs(res, prop, [f'props/{prop}.vo'])
     if a.tier == 'thorough':
         coqchk(res, [f'Props.{prop}'])
